@@ -17,13 +17,28 @@ REQUIRED_OBS = ["gate_evaluations", "sessions"]
 RULE = ("(a) every name of 1..N components over {a, b, .., ., '', c:, the components of check_archive_path's own probe directory} x "
         "leading {none, /, //} x trailing {none, /}: real check_archive_path verdict vs independent definition (split on '/', skip ''/'.', "
         "'..' pops, reject iff absolute or depth < 0); (b) accepted/rejected classes driven through real writestr/writef sessions: "
-        "ValueError, archive unchanged; (c) write/writeall of absolute and relative sources: no stored name starts with a separator or "
-        "drive prefix. Cell = (gate|prefix|ncomponents) or (session kind, verdict class).")
+        "ValueError, archive unchanged; names with both separators mixed ('\\' is a separator for every reader of the archive), with NUL, lone surrogates and "
+        "65534..65537 UTF-16 units (not representable in the name table: must be rejected); (c) write/writeall of absolute and relative sources, "
+        "of files whose names start with '\\' or 'c:\\' and of a file with an undecodable name: no stored name starts with a separator or "
+        "drive prefix, the undecodable name is refused by the call and the session survives. Cell = (gate|prefix|ncomponents) or (session kind, verdict class).")
 EXHAUSTIVE = {"quick": "all names of <= 5 components over the alphabet (gate level)", "thorough": "all names of <= 6 components (gate level)"}
 
 
+def representable(name: str) -> bool:
+    """The 7z name table holds NUL-terminated UTF-16 strings; readers stop after 65536 code units."""
+    try:
+        units = len(name.encode("utf-16-le")) // 2
+    except UnicodeEncodeError:
+        return False
+    return "\x00" not in name and units < 65536
+
+
 def spec_accepts(name: str) -> bool:
-    """Independent definition: resolve '..' lexically against a virtual root."""
+    """Independent definition: the name as a reader sees it ('\\' is a separator in stored names: py7zr's own reader,
+    like 7-Zip, maps it to '/'); resolve '..' lexically against a virtual root; a name the table cannot hold is rejected."""
+    if not representable(name):
+        return False
+    name = name.replace("\\", "/")
     if name.startswith("/"):
         return False
     depth = 0
@@ -61,6 +76,8 @@ def cases(rng, tier):
         for lead in ("", "/", "//"):
             for first in range(8):
                 out.append({"kind": "gate", "n": n, "lead": lead, "first": first})
+    for n in range(1, 5 if tier == "quick" else 6):
+        out.append({"kind": "gate-bs", "n": n})
     for i in range(200 if tier == "quick" else 4000):
         out.append({"kind": "session", "seed": rng.getrandbits(32)})
     for i in range(40 if tier == "quick" else 600):
@@ -107,6 +124,33 @@ def run_case(case):
         obs["gate_disagreements"] = dis
         cell = "gate|%s|n%d|first=%s" % (case["lead"] or "-", n, firsts[0] or "''")
         sample = {"kind": "gate", "n": n, "lead": case["lead"], "first": firsts[0], "evaluations": obs["gate_evaluations"]}
+    elif case["kind"] == "gate-bs":
+        # both separators mixed: components x separators x leading / trailing separator
+        n = case["n"]
+        comps_a = ["a", "..", ".", "", "c:"]
+        dis = 0
+        for comps in itertools.product(comps_a, repeat=n):
+            for seps in itertools.product("/\\", repeat=n - 1):
+                body = comps[0] + "".join(s_ + c for s_, c in zip(seps, comps[1:]))
+                for lead in ("", "/", "\\", "\\\\", "/\\"):
+                    for trail in ("", "/", "\\"):
+                        name = lead + body + trail
+                        if name == "":
+                            continue
+                        try:
+                            got = bool(check_archive_path(name))
+                        except Exception as e:
+                            viol.append({"key": "gate-raises/%s" % type(e).__name__, "what": "check_archive_path(%r) raised %s" % (name, e)})
+                            continue
+                        obs["gate_evaluations"] += 1
+                        want = spec_accepts(name)
+                        if got != want:
+                            dis += 1
+                            if len(viol) < 30:
+                                viol.append({"key": "gate/%s-backslash" % ("accepts-escaping" if got else "rejects-inside"), "what": "check_archive_path(%r) = %s, independent definition says %s" % (name, got, want)})
+        obs["gate_disagreements"] = dis
+        cell = "gate-bs|n%d" % n
+        sample = {"kind": "gate-bs", "n": n, "evaluations": obs["gate_evaluations"]}
     elif case["kind"] == "session":
         import py7zr
 
@@ -114,7 +158,14 @@ def run_case(case):
         names = []
         for _ in range(r.randint(1, 5)):
             style = r.random()
-            if style < 0.6:
+            if style < 0.15:
+                # names the table cannot hold, or that a reader sees differently from the host's path flavour
+                base = "/".join(r.choice(["a", "b", "etc", "x"]) for _ in range(r.randint(1, 3)))
+                nm = r.choice([
+                    "a\x00/" + base, base + "\x00", "\x00", "bad\ud800" + base, base + "/\udc80x",
+                    "a" * 65536 + "/" + base, "a" * 65535, "a" * 65534 + "/b", "\U0001F600" * 32768, "\U0001F600" * 32767 + "b",
+                    "\\" + base.replace("/", "\\"), "..\\..\\" + base, "a\\..\\..\\" + base, "a\\" + base, "c:\\" + base, base + "\\..\\..", "\\\\srv\\share\\" + base])
+            elif style < 0.6:
                 n = r.randint(1, 6)
                 nm = r.choice(["", "", "/", "//"]) + "/".join(r.choice(alph) for _ in range(n)) + r.choice(["", "", "/"])
             else:
@@ -155,7 +206,7 @@ def run_case(case):
             gn, got = pz.read_mem(buf.getvalue())
             import pathlib
 
-            want_names = [pathlib.Path(n).as_posix() for n, _ in accepted]
+            want_names = [pathlib.PurePosixPath(n).as_posix().replace("\\", "/") for n, _ in accepted]
             if gn != want_names:
                 viol.append({"key": "session/archive-changed-by-rejection", "what": "archive lists %r, accepted calls were %r" % (gn, want_names)})
             for nm in gn:
@@ -178,7 +229,12 @@ def run_case(case):
                 with open(os.path.join(root, p), "wb") as f:
                     f.write(p.encode())
             arc = os.path.join(d, "o.7z")
-            style = r.choice(["abs-file", "abs-dir", "rel-dir", "rel-file", "dotdot-rel", "abs-pathobj", "dot-dir"])
+            # legal POSIX file names that a reader of the archive takes for something else
+            os.makedirs(os.path.join(root, "\\etc"))
+            for p in ("\\abs.txt", "c:\\win.txt", "\\etc/passwd", "sub/\\lead"):
+                with open(os.path.join(root, p), "wb") as f:
+                    f.write(p.encode())
+            style = r.choice(["abs-file", "abs-dir", "rel-dir", "rel-file", "dotdot-rel", "abs-pathobj", "dot-dir", "bs-file", "bs-drive", "bs-dir", "bs-pathobj", "undecodable-name"])
             cwd = os.getcwd()
             try:
                 os.chdir(os.path.join(d, "w"))
@@ -198,6 +254,31 @@ def run_case(case):
                         z.writeall("../sub/deep")
                     elif style == "abs-pathobj":
                         z.writeall(pathlib.Path(root) / "sub")
+                    elif style == "bs-file":
+                        os.chdir(root)
+                        z.write("\\abs.txt")
+                    elif style == "bs-drive":
+                        os.chdir(root)
+                        z.write("c:\\win.txt")
+                    elif style == "bs-dir":
+                        os.chdir(root)
+                        z.writeall("\\etc")
+                    elif style == "bs-pathobj":
+                        os.chdir(root)
+                        z.write(pathlib.Path("\\abs.txt"))
+                    elif style == "undecodable-name":
+                        # a file whose name is not valid UTF-8 comes as a str with a lone surrogate: it cannot be stored.
+                        # The call must say so; the session and its other members must survive
+                        os.chdir(root)
+                        bad = os.fsdecode(b"caf\xe9.txt")
+                        with open(bad, "wb") as f:
+                            f.write(b"x")
+                        z.write("f.txt")
+                        try:
+                            z.write(bad)
+                            viol.append({"key": "fswrite/undecodable-name-accepted", "what": "write(%r) returned normally; the name cannot be encoded as UTF-16" % bad})
+                        except ValueError:
+                            obs["undecodable_names_refused"] = obs.get("undecodable_names_refused", 0) + 1
                     else:
                         os.chdir(root)
                         z.writeall(".")
